@@ -20,6 +20,8 @@ partial def decVal : Sexp → Option PVal
     | "o", [n] => return .obj (← n.nat?)
     | "l", xs => return .list (← xs.mapM decVal)
     | "t", xs => return .tup (← xs.mapM decVal)
+    -- a Python dict {0: v0, 1: v1, ...}: only ever INDEXED by the harness, so it is modelled as the tuple of its values
+    | "dm", xs => return .tup (← xs.mapM decVal)
     | _, _ => none
 
 partial def decTerm : Sexp → Option (Term PVal)
